@@ -6,7 +6,11 @@ import common
 def main():
     common.log("setup: extractor"); common.build_extractor(); common.run_extract()
     common.log("setup: lake build (models, proofs, driver)")
-    rc, out = common.lake(["BdModel", "driver"])
+    targets = ["driver"]
+    for sub in ("Props", "Tie"):
+        d = os.path.join(common.LEAN, "BdModel", sub)
+        targets += ["BdModel.%s.%s" % (sub, f[:-5]) for f in sorted(os.listdir(d)) if f.endswith(".lean")]
+    rc, out = common.lake(targets)
     sys.stderr.write(out[-4000:])
     if rc != 0:
         return 1
